@@ -40,19 +40,20 @@ theorem date_groupTexts (y1 y2 y3 y4 a m1 m2 b d1 d2 : Char) :
       erase_append, erase_cons_ge (openSym_ge _), erase_cons_ge (closeSym_ge _), erase_toNat, erase_nil,
       List.map_append, Char.ofNat_toNat]
 
-theorem dateFind_of_spec (env : Env) (find : Str → List Str) (h : SubmatchSpec env Gen.rx_klog_datePattern 3 find) :
+theorem dateFind_of_spec (env : Env) (re : Re) (hre : ∀ env m, Matches env (mark re) m ↔ Matches env (mark Expect.date) m)
+    (find : Str → List Str) (h : SubmatchSpec env re 3 find) :
     DateFind find := by
   refine ⟨?_, ?_⟩
   · intro y1 y2 y3 y4 a m1 m2 b d1 d2 hdig ha hb
     have hm := (Regexes.date_marked env _).2 ⟨y1, y2, y3, y4, a, m1, m2, b, d1, d2, hdig, ha, hb, rfl⟩
-    have hf := (h _).1 _ ((date_iff env _).2 hm) (erase_date_marked y1 y2 y3 y4 a m1 m2 b d1 d2)
+    have hf := (h _).1 _ ((hre env _).2 hm) (erase_date_marked y1 y2 y3 y4 a m1 m2 b d1 d2)
     rw [date_groupTexts] at hf
     exact hf
   · intro s hs
     refine (h s).2 ?_
     rintro ⟨m, hm, he⟩
     obtain ⟨y1, y2, y3, y4, a, m1, m2, b, d1, d2, hdig, ha, hb, rfl⟩ :=
-      (Regexes.date_marked env m).1 ((date_iff env m).1 hm)
+      (Regexes.date_marked env m).1 ((hre env m).1 hm)
     rw [erase_date_marked, codes_inj] at he
     exact hs env ((Regexes.date_shape env s).2 ⟨y1, y2, y3, y4, a, m1, m2, b, d1, d2, he.symm, hdig, ha, hb⟩)
 
